@@ -228,6 +228,7 @@ type c07case struct {
 	Std    string    `json:"std,omitempty"` // standard-library transport instead of the oracle
 	NoRow  bool      `json:"norow,omitempty"` // too large for a model row: implementation + oracle only
 	data   []byte
+	fills  []c07fill
 }
 
 func c07padded(l int) int { return l + (8-l%8)%8 }
@@ -249,9 +250,33 @@ func c07header(tag uint32, ty byte, l uint32) []byte {
 	return b
 }
 
+type c07fill struct{ off, n, seed int }
+
 type c07builder struct {
 	data  []byte
 	items []c07item
+	fills []c07fill // stretches of data produced by c07lcg (described, not spelled out, in the model rows)
+}
+
+// c07lcg: n pseudo-random bytes; the same generator is written in Gallina in cases_C07.v.
+func c07lcg(seed, n int) []byte {
+	b := make([]byte, n)
+	s := uint64(seed)
+	for i := range b {
+		s = (s*141 + 12345) & (1<<24 - 1)
+		b[i] = byte(s >> 8)
+	}
+	return b
+}
+
+// msgFill appends a byte-string message whose n value bytes come from c07lcg(seed).
+func (b *c07builder) msgFill(tag uint32, n, seed int) {
+	b.fills = append(b.fills, c07fill{len(b.data) + 8, n, seed})
+	b.msg(tag, c07lcg(seed, n))
+}
+func (b *c07builder) badtypeFill(tag uint32, ty byte, n, seed int) {
+	b.fills = append(b.fills, c07fill{len(b.data) + 8, n, seed})
+	b.badtype(tag, ty, c07lcg(seed, n))
 }
 
 func (b *c07builder) msg(tag uint32, val []byte) {
@@ -296,7 +321,7 @@ func (b *c07builder) cut(n int) {
 }
 
 func (b *c07builder) mk(family string, max int, sched []c07ans, end int) c07case {
-	return c07case{Family: family, Max: max, Data: hex.EncodeToString(b.data), Sched: sched, End: end, Items: b.items, data: b.data}
+	return c07case{Family: family, Max: max, Data: hex.EncodeToString(b.data), Sched: sched, End: end, Items: b.items, data: b.data, fills: b.fills}
 }
 
 func c07uniform(k, count int, attach bool) []c07ans {
@@ -543,24 +568,157 @@ func c07run(cs *c07case, src c07src) (obs []c07obs, fails [][2]string) {
 
 // ---------------------------------------------------------------- printing rows
 
-func c07coqSched(s []c07ans) string {
-	el := make([]string, len(s))
-	for i, a := range s {
-		if a.Fault {
-			el[i] = fmt.Sprintf("Fault %s %d", h.Z(int64(a.K)), a.E)
-		} else {
-			el[i] = fmt.Sprintf("Chunk %s %s", h.Z(int64(a.K)), h.Bool(a.Attach))
-		}
+// Rows are handed to Rocq as a byte stream written as a few large hexadecimal numerals
+// (two orders of magnitude cheaper to parse than list / tuple / string syntax).
+// Numbers: one byte below 255, otherwise 0xff followed by 4 bytes big-endian.
+type c07enc struct{ b []byte }
+
+func (e *c07enc) num(v int) {
+	if v < 0 {
+		panic("c07enc: negative number")
 	}
-	return h.List(el)
+	if v < 255 {
+		e.b = append(e.b, byte(v))
+	} else {
+		e.b = append(e.b, 0xff, byte(v>>24), byte(v>>16), byte(v>>8), byte(v))
+	}
+}
+func (e *c07enc) bytes(b []byte) {
+	e.num(len(b))
+	e.b = append(e.b, b...)
 }
 
-func c07coqObs(o c07obs) string {
-	tr := make([]string, len(o.trace))
-	for i, c := range o.trace {
-		tr[i] = fmt.Sprintf("(%d,%d)", c.want, c.n)
+func c07hstep(h uint64, x int) uint64 { return (h*33 + uint64(x) + 1) & (1<<40 - 1) }
+
+// c07obsHash folds what the Recv calls of one case did into a 40-bit number; the model's
+// results are folded the same way inside Rocq (cases_C07.v) and the two numbers compared.
+func c07obsHash(obs []c07obs, norest bool) uint64 {
+	h := uint64(7)
+	for _, o := range obs {
+		h = c07hstep(h, o.class)
+		h = c07hstep(h, o.code)
+		h = c07hstep(h, len(o.payload))
+		for _, b := range o.payload {
+			h = c07hstep(h, int(b))
+		}
+		h = c07hstep(h, len(o.trace))
+		for _, c := range o.trace {
+			h = c07hstep(h, c.want)
+			h = c07hstep(h, c.n)
+		}
+		if norest {
+			h = c07hstep(h, 0)
+		} else {
+			h = c07hstep(h, o.rest+1)
+		}
 	}
-	return fmt.Sprintf("(%d, %d, %s, %s, %s, %d)", o.class, o.code, h.Bytes(o.payload), h.List(tr), h.Z(int64(o.rest)), o.grew)
+	return h
+}
+
+// row := max+1 total nsegs {0 len bytes | 1 n seed | 2 n} nruns {kind count k [e]} end norest nobs {grew} hash_hi hash_lo
+func c07encodeRow(max int, data []byte, fills []c07fill, sched []c07ans, end int, norest bool, obs []c07obs) []byte {
+	e := &c07enc{}
+	e.num(max + 1)
+	e.num(len(data))
+	// segments
+	seg := &c07enc{}
+	nseg := 0
+	raw := func(b []byte) {
+		// split out runs of at least 6 zero bytes
+		for len(b) > 0 {
+			z := 0
+			for z < len(b) && b[z] == 0 {
+				z++
+			}
+			if z >= 6 {
+				seg.num(2)
+				seg.num(z)
+				nseg++
+				b = b[z:]
+				continue
+			}
+			i := z
+			for i < len(b) {
+				if b[i] == 0 {
+					j := i
+					for j < len(b) && b[j] == 0 {
+						j++
+					}
+					if j-i >= 6 {
+						break
+					}
+					i = j
+				} else {
+					i++
+				}
+			}
+			seg.num(0)
+			seg.bytes(b[:i])
+			nseg++
+			b = b[i:]
+		}
+	}
+	pos := 0
+	for _, f := range fills {
+		if f.off >= len(data) || f.n < 24 {
+			continue
+		}
+		n := f.n
+		if f.off+n > len(data) {
+			n = len(data) - f.off
+		}
+		raw(data[pos:f.off])
+		seg.num(1)
+		seg.num(n)
+		seg.num(f.seed)
+		nseg++
+		pos = f.off + n
+	}
+	raw(data[pos:])
+	e.num(nseg)
+	e.b = append(e.b, seg.b...)
+	type run struct {
+		a c07ans
+		n int
+	}
+	var runs []run
+	for _, a := range sched {
+		if len(runs) > 0 && runs[len(runs)-1].a == a {
+			runs[len(runs)-1].n++
+		} else {
+			runs = append(runs, run{a, 1})
+		}
+	}
+	e.num(len(runs))
+	for _, r := range runs {
+		switch {
+		case r.a.Fault:
+			e.num(2)
+		case r.a.Attach:
+			e.num(1)
+		default:
+			e.num(0)
+		}
+		e.num(r.n)
+		e.num(r.a.K)
+		if r.a.Fault {
+			e.num(r.a.E)
+		}
+	}
+	e.num(end)
+	if norest {
+		e.num(1)
+	} else {
+		e.num(0)
+	}
+	e.num(len(obs))
+	for _, o := range obs {
+		e.num(o.grew)
+	}
+	hv := c07obsHash(obs, norest)
+	e.num(int(hv >> 20))
+	e.num(int(hv & (1<<20 - 1)))
+	return e.b
 }
 
 // schedule equivalent to what a foreign reader was seen to answer
@@ -771,6 +929,9 @@ func c07gen(c *h.Ctx) []c07case {
 		for _, k := range []int{1, 2, 3, 5, 7, 8, 9, 13, 16, 1000} {
 			for _, attach := range []bool{false, true} {
 				for _, end := range []int{0, 3} {
+					if end == 3 && (cut+k)%2 == 0 {
+						continue
+					}
 					b := &c07builder{}
 					b.msg(0x420001, nil)
 					b.msg(0x420002, []byte{0xAA, 0xBB, 0xCC})
@@ -802,11 +963,7 @@ func c07gen(c *h.Ctx) []c07case {
 						if max == MiB && (hi > 0 || (ann != max && ann != max-8)) {
 							continue // at 1 MiB only the two largest admissible messages, once (no model row)
 						}
-						val := make([]byte, l)
-						for i := range val {
-							val[i] = byte(i*7 + 1)
-						}
-						b.msg(0x420001, val)
+						b.msgFill(0x420001, int(l), int(l)*3+hi)
 						b.msg(0x420002, []byte{1})
 					}
 					parts := append([]int{8, 8}, hd...)
@@ -825,12 +982,8 @@ func c07gen(c *h.Ctx) []c07case {
 					continue
 				}
 				for _, cutTail := range []int{0, 1, 300} {
-					val := make([]byte, l)
-					for i := range val {
-						val[i] = byte(i*13 + 5)
-					}
 					b := &c07builder{}
-					b.msg(0x42000A, val)
+					b.msgFill(0x42000A, l, l+k)
 					b.msg(0x42000B, []byte{1, 2})
 					if cutTail > 0 {
 						b.cut(8 + c07padded(l) - cutTail)
@@ -857,11 +1010,11 @@ func c07gen(c *h.Ctx) []c07case {
 			default:
 				l = r.Intn(41)
 			}
-			val := r.Bytes(l)
+			seed := r.Intn(1 << 20)
 			tag := uint32(0x420000 + r.Intn(200))
 			switch {
 			case r.Chance(1, 8):
-				b.badtype(tag, []byte{0, 11, 12, 255}[r.Intn(4)], val)
+				b.badtypeFill(tag, []byte{0, 11, 12, 255}[r.Intn(4)], l, seed)
 			case max > 0 && 8+c07padded(l) > max:
 				b.oversize(tag, uint32(l), 8*r.Intn(4))
 				j = nit
@@ -869,7 +1022,7 @@ func c07gen(c *h.Ctx) []c07case {
 				b.oversize(tag, uint32(max-7+r.Intn(4000)), 8*r.Intn(4))
 				j = nit
 			default:
-				b.msg(tag, val)
+				b.msgFill(tag, l, seed)
 			}
 		}
 		if r.Chance(1, 3) && len(b.data) > 0 {
@@ -992,7 +1145,8 @@ func driveC07(c *h.Ctx) error {
 	} else {
 		cases = c07gen(c)
 	}
-	var rows []string
+	var rows [][]byte
+	var rowCase []map[string]any
 	for i := range cases {
 		cs := &cases[i]
 		var src c07src
@@ -1057,25 +1211,117 @@ func driveC07(c *h.Ctx) error {
 			}
 			sched = c07schedFromTrace(all, len(cs.data), &end)
 		}
-		ol := make([]string, len(obs))
-		for j, o := range obs {
-			ol[j] = c07coqObs(o)
-		}
-		rows = append(rows, fmt.Sprintf("(%s, %s, %s, %d, %s)", h.Z(int64(cs.Max)), h.Bytes(cs.data), c07coqSched(sched), end, h.List(ol)))
-		c.IndexCase("mism_recv", len(rows)-1, caseJSON)
+		rows = append(rows, c07encodeRow(cs.Max, cs.data, cs.fills, sched, end, cs.Std != "", obs))
+		rowCase = append(rowCase, caseJSON)
 	}
 	if c.Replay == nil {
 		c.Extra("note_32bit", "the driver runs on a 64-bit Go int; the model's W=32 instance is exercised only inside Rocq")
 	}
 	var sb strings.Builder
 	sb.WriteString("From Coq Require Import ZArith List Bool.\nFrom KV Require Import Base Stream Cases.\nImport ListNotations.\nOpen Scope Z_scope.\n")
-	defs, expr := h.Chunk("rows", "Z * list Z * list ans * Z * list (Z * Z * list Z * list (Z * Z) * Z * Z)", rows, 200)
-	sb.WriteString(defs)
+	// blobs of whole rows; 7 bytes per primitive-integer literal (by far the cheapest literals to parse);
+	// one mismatch table per blob
+	type blob struct {
+		first, n int
+		b        []byte
+	}
+	var blobs []blob
+	for i, r := range rows {
+		if len(blobs) == 0 || len(blobs[len(blobs)-1].b)+len(r) > 40000 {
+			blobs = append(blobs, blob{first: i})
+		}
+		bl := &blobs[len(blobs)-1]
+		bl.b = append(bl.b, r...)
+		bl.n++
+		c.IndexCase(fmt.Sprintf("mism_recv_%d", len(blobs)-1), i, rowCase[i])
+	}
+	sb.WriteString("From Coq Require Import Uint63.\nOpen Scope uint63_scope.\n")
+	for i, bl := range blobs {
+		var words []string
+		for j := 0; j < len(bl.b); j += 7 {
+			var w [7]byte
+			copy(w[:], bl.b[j:])
+			words = append(words, "0x"+hex.EncodeToString(w[:]))
+		}
+		fmt.Fprintf(&sb, "Definition blob_%d : Z * list int := (%d%%Z, %s).\n", i, bl.n, h.List(words))
+	}
+	sb.WriteString("Close Scope uint63_scope.\n")
 	sb.WriteString(`
+(* ---- decoding of the blobs *)
+Definition word_bytes (w : int) : list Z :=
+  let z := Uint63.to_Z w in
+  [Z.land (Z.shiftr z 48) 255; Z.land (Z.shiftr z 40) 255; Z.land (Z.shiftr z 32) 255; Z.land (Z.shiftr z 24) 255;
+   Z.land (Z.shiftr z 16) 255; Z.land (Z.shiftr z 8) 255; Z.land z 255].
+Definition blob_bytes (ws : list int) : list Z := flat_map word_bytes ws.
+Definition get_num (l : list Z) : Z * list Z :=
+  match l with
+  | 255 :: a :: b :: c :: d :: r => (((a * 256 + b) * 256 + c) * 256 + d, r)
+  | x :: r => (x, r)
+  | [] => (0, [])
+  end.
+Definition get_bytes (l : list Z) : list Z * list Z :=
+  let '(n, r) := get_num l in (take n r, drop n r).
+Fixpoint get_runs (n : nat) (l : list Z) : list ans * list Z :=
+  match n with
+  | O => ([], l)
+  | S n' =>
+    let '(kind, l) := get_num l in
+    let '(cnt, l) := get_num l in
+    let '(k, l) := get_num l in
+    let '(a, l) := if kind =? 2 then let '(e, l) := get_num l in (Fault k e, l)
+                   else (Chunk k (kind =? 1), l) in
+    let '(rest, l) := get_runs n' l in
+    (repeat a (Z.to_nat cnt) ++ rest, l)
+  end.
+(* the generator of the long message values: c07lcg of the driver *)
+Fixpoint lcg_bytes (n : nat) (s : Z) : list Z :=
+  match n with
+  | O => []
+  | S n' => let s' := Z.land (s * 141 + 12345) 16777215 in Z.land (Z.shiftr s' 8) 255 :: lcg_bytes n' s'
+  end.
+Fixpoint get_segs (n : nat) (l : list Z) : list Z * list Z :=
+  match n with
+  | O => ([], l)
+  | S n' =>
+    let '(kind, l) := get_num l in
+    let '(seg, l) :=
+      if kind =? 0 then get_bytes l
+      else if kind =? 1 then let '(m, l) := get_num l in let '(sd, l) := get_num l in (lcg_bytes (Z.to_nat m) sd, l)
+      else let '(m, l) := get_num l in (zeros m, l) in
+    let '(rest, l) := get_segs n' l in
+    (seg ++ rest, l)
+  end.
+Fixpoint get_nums (n : nat) (l : list Z) : list Z * list Z :=
+  match n with
+  | O => ([], l)
+  | S n' => let '(x, l) := get_num l in let '(rest, l) := get_nums n' l in (x :: rest, l)
+  end.
+(* max, data, schedule, end error, rest not observed, measured growth per Recv, hash of the observations *)
+Definition row := (Z * list Z * list ans * Z * bool * list Z * Z)%type.
+Fixpoint get_rows (n : nat) (l : list Z) : list row :=
+  match n with
+  | O => []
+  | S n' =>
+    let '(max1, l) := get_num l in
+    let '(total, l) := get_num l in
+    let '(ns, l) := get_num l in
+    let '(data, l) := get_segs (Z.to_nat ns) l in
+    let '(nr, l) := get_num l in
+    let '(sched, l) := get_runs (Z.to_nat nr) l in
+    let '(e, l) := get_num l in
+    let '(norest, l) := get_num l in
+    let '(no, l) := get_num l in
+    let '(grews, l) := get_nums (Z.to_nat no) l in
+    let '(hh, l) := get_num l in
+    let '(hl, l) := get_num l in
+    (max1 - 1, (if len data =? total then data else []), sched, e, norest =? 1, grews, hh * 1048576 + hl) :: get_rows n' l
+  end.
+Definition rows_of (b : Z * list int) : list row := get_rows (Z.to_nat (fst b)) (blob_bytes (snd b)).
+
+(* ---- the comparison *)
 (* UnmarshalTTLV into ttlv.Value followed by MarshalTTLV, on the frames the generator emits:
    byte strings with zero padding decode and re-encode to themselves, types 0 and > 10 are rejected. *)
 Definition um (f : list Z) : res (list Z) := if nth 3 f (-1) =? 8 then Ok f else Err.
-Definition obs := (Z * Z * list Z * list (Z * Z) * Z * Z)%type.
 Definition proj (r : rres (list Z)) : Z * Z * list Z :=
   match r_out r with
   | RMsg (Ok f) => (0, 0, f)
@@ -1089,27 +1335,40 @@ Definition proj (r : rres (list Z)) : Z * Z * list Z :=
   | RPanic => (5, 0, [])
   | RFuel => (9, 0, [])
   end.
-Definition pair_eqb (a b : Z * Z) : bool := (fst a =? fst b) && (snd a =? snd b).
-Definition obs_ok (r : rres (list Z)) (o : obs) : bool :=
-  match o with (c, e, p, tr, rest, grew) =>
-    match proj r with (c', e', p') =>
-      (c =? c') && (e =? e') && zlist_eqb p p' && list_eqb pair_eqb tr (r_trace r)
-      && ((rest =? -1) || (rest =? len (t_rest (r_tr r))))
-      && (if grew =? 2 then true else if grew =? 1 then 512 <? r_cap r else r_cap r =? 512)
-    end
+(* c07hstep / c07obsHash of the driver *)
+Definition hstep (h x : Z) : Z := Z.land (h * 33 + x + 1) 1099511627775.
+Definition obs_hash (norest : bool) (h : Z) (r : rres (list Z)) : Z :=
+  match proj r with (c, e, p) =>
+    let h := hstep (hstep (hstep h c) e) (len p) in
+    let h := fold_left hstep p h in
+    let h := hstep h (len (r_trace r)) in
+    let h := fold_left (fun h wn => hstep (hstep h (fst wn)) (snd wn)) (r_trace r) h in
+    hstep h (if norest then 0 else len (t_rest (r_tr r)) + 1)
   end.
+Definition grew_ok (r : rres (list Z)) (grew : Z) : bool :=
+  if grew =? 2 then true else if grew =? 1 then 512 <? r_cap r else r_cap r =? 512.
 Fixpoint all2 {A B} (f : A -> B -> bool) (a : list A) (b : list B) : bool :=
   match a, b with
   | [], [] => true
   | x :: xs, y :: ys => f x y && all2 f xs ys
   | _, _ => false
   end.
-Definition row_ok (row : Z * list Z * list ans * Z * list obs) : bool :=
-  match row with (max, data, sched, e, ol) =>
-    all2 obs_ok (recv_n (list Z) um 64 max (length ol) (mkTr data e sched)) ol
+Definition row_ok (r : row) : bool :=
+  match r with (max, data, sched, e, norest, grews, hv) =>
+    let rs := recv_n (list Z) um 64 max (length grews) (mkTr data e sched) in
+    negb (len grews =? 0) && all2 grew_ok rs grews && (fold_left (obs_hash norest) rs 7 =? hv)
   end.
 `)
-	fmt.Fprintf(&sb, "Definition mism_recv := Eval vm_compute in bad_idx row_ok %s 0.\nPrint mism_recv.\n", expr)
+	var lens []string
+	for i, bl := range blobs {
+		fmt.Fprintf(&sb, "Definition mism_recv_%d := Eval vm_compute in bad_idx row_ok (rows_of blob_%d) %d.\nPrint mism_recv_%d.\n", i, i, bl.first, i)
+		lens = append(lens, fmt.Sprintf("len (rows_of blob_%d)", i))
+	}
+	if len(lens) == 0 {
+		lens = []string{"0"}
+	}
+	fmt.Fprintf(&sb, "Definition mism_count := Eval vm_compute in (if %s =? %d then [] else [0]).\nPrint mism_count.\n", strings.Join(lens, " + "), len(rows))
+	c.Extra("model_rows_written", len(rows))
 	return c.WriteCases("cases_C07.v", sb.String(), len(rows))
 }
 
